@@ -452,7 +452,7 @@ fn skip_assign(core: &Core) -> bool {
 }
 
 fn skip_return(core: &Core) -> bool {
-    matches!(core, Core::Return { .. } | Core::Raise { .. })
+    matches!(core, Core::Return { .. } | Core::Raise { .. } | Core::Pass)
 }
 
 #[cfg(test)]
